@@ -32,6 +32,11 @@ func TestC13(t *testing.T) {
 		},
 		MinEvals: 100,
 		Run:      runC13,
+		Finish: func(sh *mon.Shard) {
+			if eng.AnyFrozen.Load() {
+				mon.FlushAndExit(sh)
+			}
+		},
 	})
 }
 
@@ -70,11 +75,29 @@ func runC13SlowWrites(c *mon.Case) {
 	}
 	time.Sleep(50 * time.Millisecond)
 	p.C2S.SetSendCost(k.ping * 4 / 5)
+	// phase 1 (half of the cases): the peer is still alive while the writes
+	// are slow, so acknowledgements arrive while keepalive ticks are pending
+	// behind a busy send loop; the connection must stay open
+	sent := 3
+	if rng.Intn(2) == 0 {
+		for i := 0; i < 4; i++ {
+			if err := p.C.Send(eng.MsgBytes('a', sent, 20)); err != nil {
+				c.Shard.Violate("closed-while-healthy|slow-transport",
+					fmt.Sprintf("Send failed (%v) on a live peer behind a slow transport (every write %v, ping %v, pong %v, N=%d)", err, k.ping*4/5, k.ping, k.pong, n),
+					map[string]any{"kind": "S", "conf": conf.String()})
+				cancel()
+				p.CloseAll()
+				return
+			}
+			sent++
+		}
+		time.Sleep(k.ping)
+	}
 	p.S2C.SetBlackhole(true, true)
 	t0 := time.Now()
 	go func() {
 		for i := 0; i < int(n)+5; i++ {
-			if p.C.Send(eng.MsgBytes('a', 3+i, 20)) != nil {
+			if p.C.Send(eng.MsgBytes('a', sent+i, 20)) != nil {
 				return
 			}
 		}
@@ -90,9 +113,42 @@ func runC13SlowWrites(c *mon.Case) {
 	}
 	p.C2S.SetSendCost(0)
 	cancel()
-	p.CloseAll()
+	// a wedged endpoint may not be closable (C12's subject); do not wait for it
+	cl := make(chan struct{})
+	go func() { p.CloseAll(); close(cl) }()
+	select {
+	case <-cl:
+	case <-time.After(10 * time.Second):
+		c.Shard.Inconc("slow-transport case: Close did not return within 10 s (judged by C12)")
+	}
 	c.Shard.Count("slow_transport_cases", 1)
 	c.Shard.Eval(fmt.Sprintf("S|%v|%d", k.ping, n))
+}
+
+// c13Frozen counts the bubbles of this worker that froze.
+var c13Frozen atomic.Int64
+
+// frozenBubble runs f in a synctest bubble and reports true if the bubble did
+// not finish within guard of real time (its goroutines stay behind; the worker
+// then ends through FlushAndExit).
+func frozenBubble(c *mon.Case, f func(), guard time.Duration) bool {
+	done := make(chan struct{})
+	go func() {
+		defer close(done)
+		synctest.Test(c.T, func(t *testing.T) { f() })
+	}()
+	select {
+	case <-done:
+		return false
+	case <-time.After(guard):
+	}
+	eng.AnyFrozen.Store(true)
+	c.Shard.Count("virtual_time_freezes", 1)
+	if c13Frozen.Add(1) >= 4 {
+		c.Shard.Inconc("four bubbles of this worker froze; the worker stops here")
+		mon.FlushAndExit(c.Shard)
+	}
+	return true
 }
 
 func runC13(c *mon.Case) {
@@ -160,7 +216,7 @@ func runC13Dead(c *mon.Case) {
 	rep := map[string]any{"kind": "D", "conf": conf.String(), "endpoint": map[bool]string{true: "server", false: "client"}[testServer],
 		"backlog": backlog, "two_sided": twoSided, "pre_messages": pre, "silence_offset": offset.String()}
 
-	synctest.Test(c.T, func(t *testing.T) {
+	body := func(virtual bool) {
 		ctx, cancel := context.WithCancel(context.Background())
 		defer cancel()
 		p := eng.NewPair(conf)
@@ -222,6 +278,10 @@ func runC13Dead(c *mon.Case) {
 			}
 		}()
 		horizon := 2 * time.Hour
+		if !virtual {
+			// real-time repetition of a case whose bubble froze
+			horizon = k.ping + k.pong + 10*x.VerifState().ResendTimeout + 11*time.Second
+		}
 		var closedAfter time.Duration = -1
 		select {
 		case <-x.VerifDone():
@@ -230,6 +290,10 @@ func runC13Dead(c *mon.Case) {
 		}
 		st := x.VerifState()
 		bound := k.ping + k.pong + 10*st.ResendTimeout + time.Second
+		if !virtual {
+			bound += 5 * time.Second // scheduling slack on the real clock
+			rep["clock"] = "real (the virtual-time bubble of this case froze)"
+		}
 		rep["resend_timeout_at_end"] = st.ResendTimeout.String()
 		rep["bound"] = bound.String()
 		switch {
@@ -249,6 +313,12 @@ func runC13Dead(c *mon.Case) {
 				c.Shard.Violate("blocked-send-after-keepalive-close", "endpoint closed by keepalive but a blocked Send did not return within 10 virtual seconds", rep)
 			}
 		}
+		if !virtual {
+			// a deadlocked endpoint may not be closable at all (C12's subject)
+			go p.CloseAll()
+			cancel()
+			return
+		}
 		p.CloseAll()
 		cancel()
 		<-sendDone
@@ -256,7 +326,22 @@ func runC13Dead(c *mon.Case) {
 			c.Shard.Inconc("leak (judged by C12)")
 			mon.FlushAndExit(c.Shard)
 		}
-	})
+	}
+	if frozenBubble(c, func() { body(true) }, 60*time.Second) {
+		// The bubble's clock stopped: a goroutine waits on a mutex whose
+		// holder needs the clock (harmless), or the endpoint has deadlocked
+		// internally (then its keepalive is dead too). The real clock decides.
+		est := k.ping + k.pong + 10*conf.Resend + 16*time.Second + offset
+		if est > 100*time.Second {
+			c.Shard.Inconc(fmt.Sprintf("case %d: bubble froze; too long to repeat on the real clock (%v)", c.Idx, est))
+		} else {
+			before := c.Shard.NViol()
+			body(false)
+			if c.Shard.NViol() > before {
+				mon.FlushAndExit(c.Shard)
+			}
+		}
+	}
 	c.Shard.Count("dead_peer_cases", 1)
 	c.Shard.Eval(fmt.Sprintf("D|%v/%v|N=%d|b=%s|two=%v|static=%v|%s|srv=%v", k.ping, k.pong, n, bclass, twoSided, conf.Static, obucket, testServer))
 	if c.Idx%150 == 0 {
@@ -296,7 +381,7 @@ func runC13Healthy(c *mon.Case) {
 	}
 	rep := map[string]any{"kind": "H", "ack_loss": ackLoss, "conf": conf.String(), "rtt": rtt.String(), "idle": idle.String(), "pre_messages": pre}
 	var pings atomic.Int64
-	synctest.Test(c.T, func(t *testing.T) {
+	if frozenBubble(c, func() {
 		ctx, cancel := context.WithCancel(context.Background())
 		defer cancel()
 		p := eng.NewPair(conf)
@@ -358,7 +443,10 @@ func runC13Healthy(c *mon.Case) {
 			c.Shard.Inconc("leak (judged by C12)")
 			mon.FlushAndExit(c.Shard)
 		}
-	})
+	}, 120*time.Second) {
+		c.Shard.Inconc(fmt.Sprintf("case %d: the bubble of a healthy-idle case froze; hours of idleness cannot be repeated on the real clock", c.Idx))
+		return
+	}
 	c.Shard.Count("pings_observed", pings.Load())
 	c.Shard.Count("healthy_idle_cases", 1)
 	c.Shard.Count("healthy_idle_virtual_hours", int64(idle/time.Hour))
